@@ -631,6 +631,47 @@ def r6_numpy_api(ctx, repo):
             ctx.violated("R6", cons, where(mod, node), "numpy.%s does not exist in the repository's numpy: AttributeError on every call" % c, key="np." + c)
 
 
+def r2_columns(ctx, repo):
+    """per-goal / per-parameter listings built column-wise (`out[i].append(individual.costs[i])`): the columns are n
+    DISTINCT lists, column i receives component i of every recorded individual"""
+    rc = repo.cls("Results", "results")
+    mod = rc.module
+    for name, attr in (("costs", "costs"), ("parameters", "vector")):
+        fn = rc.methods.get(name)
+        if fn is None:
+            continue
+        C = "Results.%s" % name
+        T = Terms(fn)
+        fills = []
+        for s_ in stmts_of(fn):
+            if isinstance(s_, ast.Expr) and is_method_call(s_.value, "append") and isinstance(s_.value.func.value, ast.Subscript) and s_.value.args:
+                fills.append(s_)
+        if not fills:
+            continue            # built row-wise or by comprehension: covered by the lock-step rule
+        st = fills[0]
+        col = st.value.func.value
+        cols = access_path(col.value)
+        arg = T.expand(st.value.args[0], at=st)
+        # what the container of columns was bound to
+        org = T.origin(cols, st) if cols else None
+        shared = None
+        for cand in [org] + [x.value for x in stmts_of(fn) if isinstance(x, ast.Assign) and any(access_path(t) == cols for t in x.targets)]:
+            if isinstance(cand, ast.BinOp) and isinstance(cand.op, ast.Mult):
+                for a_, b_ in ((cand.left, cand.right), (cand.right, cand.left)):
+                    if isinstance(a_, ast.List) and len(a_.elts) == 1 and isinstance(a_.elts[0], (ast.List, ast.Dict, ast.Set, ast.ListComp, ast.Call, ast.Name)):
+                        shared = cand
+        if shared is not None:
+            ctx.violated("R2", C, where(mod, st), "the columns are created as %s: one list object repeated, so every column is the same list and receives the values of all "
+                         "components of every individual" % text(shared), key="columns")
+            continue
+        idx_c = text(col.slice)
+        ok = None
+        if isinstance(arg, ast.Subscript) and (access_path(arg.value) or "").endswith("." + attr):
+            ok = True if text(arg.slice) == idx_c else (False if (text(arg.slice).isidentifier() and idx_c.isidentifier()) else None)
+        ctx.check3(ok, "R2", C, where(mod, st), "column %s collects component %s of every individual; the columns are distinct lists" % (idx_c, idx_c),
+                   "column %s receives component %s" % (idx_c, text(arg.slice) if isinstance(arg, ast.Subscript) else "?"), "column fill %s not recognised" % text(st).strip()[:80], key="columns")
+
+
 def run(ctx):
     for rid, doc in (("R1", "population(tag) = recorded individuals with that tag, in order; default = maximum tag"),
                      ("R2", "parallel lists filled in lock-step from the same individual"),
@@ -643,6 +684,7 @@ def run(ctx):
     ctx.assume("indicator values themselves (numeric) are not decided; only the reduction structure")
     r1_population(ctx, ctx.repo)
     pair_sites(ctx, ctx.repo)
+    r2_columns(ctx, ctx.repo)
     r4_find_optimum(ctx, ctx.repo)
     r5_indicators(ctx, ctx.repo)
     r6_numpy_api(ctx, ctx.repo)
